@@ -93,24 +93,22 @@ def Gz.sputc {D : Deflater} (g : Gz D) (c : UInt8) : Gz D × List Act :=
   if g.inBuf.length < g.cap then ({ g with inBuf := g.inBuf ++ [c] }, []) else g.overflowC c
 
 /-- `std::streambuf::xsputn` (libstdc++): copy what fits, `overflow(next char)`, repeat -/
-def Gz.xsputn {D : Deflater} (g : Gz D) (s : Bytes) : Gz D × List Act :=
-  if g.cap = 0 ∨ !g.opened then (g, [])
-  else
+def Gz.xsputnAux {D : Deflater} : Nat → Gz D → Bytes → Gz D × List Act
+  | 0, g, _ => (g, [])
+  | fuel + 1, g, s =>
     let room := g.cap - g.inBuf.length
-    if h : s.length ≤ room then ({ g with inBuf := g.inBuf ++ s }, [])
+    if s.length ≤ room then ({ g with inBuf := g.inBuf ++ s }, [])
     else
       let g1 := { g with inBuf := g.inBuf ++ s.take room }
-      match hs : s.drop room with
+      match s.drop room with
       | [] => (g1, [])
       | c :: rest =>
         let r1 := g1.overflowC c
-        let r2 := Gz.xsputn r1.1 rest
+        let r2 := Gz.xsputnAux fuel r1.1 rest
         (r2.1, r1.2 ++ r2.2)
-termination_by s.length
-decreasing_by
-  have := congrArg List.length hs
-  simp only [List.length_drop, List.length_cons] at this
-  omega
+
+def Gz.xsputn {D : Deflater} (g : Gz D) (s : Bytes) : Gz D × List Act :=
+  if !g.opened then (g, []) else Gz.xsputnAux (s.length + 1) g s
 
 /-- `gzip_buf::sync` -/
 def Gz.sync {D : Deflater} (g : Gz D) : Gz D × List Act :=
@@ -138,22 +136,29 @@ structure Copy where
   attached : Bool := true
   deriving Repr, DecidableEq, Inhabited
 
+/-- the `sputn(pbase(), pptr()-pbase())` at the head of `copy_buf::overflow` -/
+def Copy.teeActs (k : Copy) : List Act :=
+  if k.attached && k.base != k.pos then [Act.put ((k.vec.drop k.base).take (k.pos - k.base))] else []
+
+/-- the `setp` part of `copy_buf::overflow`: first allocation, doubling, or just moving `pbase` up -/
+def Copy.reposition (k : Copy) : Copy :=
+  if !k.started then
+    { k with vec := if k.vec.isEmpty then resize k.vec Gen.copyBufInitial else k.vec, base := 0, pos := 0, started := true }
+  else if k.pos = k.vec.length then
+    { k with vec := resize k.vec (k.vec.length * 2), base := k.vec.length, pos := k.vec.length }
+  else { k with base := k.pos }
+
+/-- `sputc(c)` into a put area that has room -/
+def Copy.store (k : Copy) (c : UInt8) : Copy := { k with vec := poke k.vec k.pos [c], pos := k.pos + 1 }
+
 /-- `copy_buf::overflow(c)`; `c = none` is `EOF` -/
 def Copy.overflow (k : Copy) (c : Option UInt8) : Copy × List Act :=
-  let acts := if k.attached && k.base != k.pos then [Act.put ((k.vec.drop k.base).take (k.pos - k.base))] else []
-  let k :=
-    if !k.started then
-      let v := if k.vec.isEmpty then resize k.vec Gen.copyBufInitial else k.vec
-      { k with vec := v, base := 0, pos := 0, started := true }
-    else if k.pos = k.vec.length then
-      { k with vec := resize k.vec (k.vec.length * 2), base := k.vec.length, pos := k.vec.length }
-    else { k with base := k.pos }
   match c with
-  | none => (k, acts)
-  | some c => ({ k with vec := poke k.vec k.pos [c], pos := k.pos + 1 }, acts)
+  | none => (k.reposition, k.teeActs)
+  | some c => (k.reposition.store c, k.teeActs)
 
 def Copy.sputc (k : Copy) (c : UInt8) : Copy × List Act :=
-  if k.started && k.pos < k.vec.length then ({ k with vec := poke k.vec k.pos [c], pos := k.pos + 1 }, [])
+  if k.started && k.pos < k.vec.length then (k.store c, [])
   else k.overflow (some c)
 
 /-- `std::streambuf::xsputn` over `copy_buf::overflow` -/
